@@ -80,6 +80,7 @@ type taskResult struct {
 	MaxPoints   int              `json:"mp"`
 	Sample      []mcrt.Choice    `json:"sample,omitempty"`
 	Races       int              `json:"races"`
+	Stragglers  int              `json:"stragglers,omitempty"`
 }
 
 type replayFile struct {
@@ -141,6 +142,7 @@ func Main(h Harness) {
 	var samples []any
 	exhaustive := true
 	racesChecked := 0
+	stragglers := 0
 
 	preEvals := 0
 	var preExtra map[string]any
@@ -250,6 +252,7 @@ func Main(h Harness) {
 					for _, m := range tr.Infra {
 						rep.InfraError(sc.Name + ": " + m)
 					}
+					stragglers += tr.Stragglers
 					if tr.Capped {
 						capped = true
 					}
@@ -326,6 +329,7 @@ func Main(h Harness) {
 			"states_rule":               "distinct scheduling-state signatures (per-thread pending operation, object and progress) summed over scenarios; reporting only, never used to prune",
 			"traces_validated_how":      "every explored trace is an execution of the implementation compiled from /repo's working tree (no separate model); the first 20 executions of every search and every violating schedule are re-executed and must reproduce the same trace hash",
 			"executions_with_race_scan": racesChecked,
+			"executions_abandoned_because_a_goroutine_did_not_leave_in_time": stragglers,
 		}),
 	}, h.Assumptions)
 }
@@ -479,7 +483,18 @@ func (w *workerState) handle(raw json.RawMessage) any {
 	e.Subtree(t.Prefix)
 	res.Executions = e.Stats.Executions
 	res.Transitions = e.Stats.Transitions
-	res.Infra = e.Stats.Infra
+	for _, m := range e.Stats.Infra {
+		if strings.Contains(m, "straggler goroutines") {
+			// a goroutine of one execution did not leave in time (a machine that does not schedule the process, or a
+			// goroutine parked outside the shim): that execution is not judged, the rest of this subtree is left
+			// unexplored (the run is then not exhaustive) and this process takes no further task
+			res.Stragglers++
+			res.Capped = true
+			w.retired = true
+			continue
+		}
+		res.Infra = append(res.Infra, m)
+	}
 	res.Capped = e.Stats.Capped
 	res.MaxPoints = e.Stats.MaxPoints
 	for k := range e.Stats.States {
